@@ -213,7 +213,10 @@ func (l *WAL) Open() error {
 			os.Remove(lastSegment)
 			segments = segments[:len(segments)-1]
 		} else {
-			fd, err := os.OpenFile(lastSegment, os.O_RDWR, 0666)
+			// Open for appending: replaying the segment may truncate a torn
+			// tail after this point, and later entries must land at the new
+			// end of the file, not at the offset the file had when opened.
+			fd, err := os.OpenFile(lastSegment, os.O_RDWR|os.O_APPEND, 0666)
 			if err != nil {
 				return err
 			}
